@@ -690,7 +690,9 @@ func (v *Visitor) resolveSkipArrayItem(fieldRef int, fieldName string, enclosing
 			shouldIncludeDeprecated := false
 
 			if includeDeprecatedVariableName != "" {
-				shouldIncludeDeprecated = ctx.Variables.GetBool(includeDeprecatedVariableName)
+				// the name is the canonical one of the planned operation: look it up through the view,
+				// which maps it to the name the client used
+				shouldIncludeDeprecated = ctx.VariablesView().Get(includeDeprecatedVariableName).GetBool()
 			}
 
 			isDeprecated := itemValue.GetBool("isDeprecated")
